@@ -596,6 +596,8 @@ def delay (s : Api) : Api × Ret :=
 /-- `soxr_clear`: everything but the configuration is reset; recipes with RESET_ON_CLEAR get their ratio back — stored as
     `soxr_create` stores it, and the engine re-created only when the channel count and the ratio are known -/
 def clear (s : Api) : Api × Ret :=
+  -- torn down by a fatal error (control block zeroed): nothing is left to restart from, the error stays
+  if s.error.isSome && s.wiped then (s, .status s.error) else
   let s' := { s with error := none, built := false, ioRatio := zero }
   if hasFlag s.q.flags Gen.flagResetOnClear then
     let s'' := { s' with ioRatio := s.ioRatio }
